@@ -1,8 +1,10 @@
 import OdxVerif.Proofs.CompKeyLeaves
 import OdxVerif.Proofs.CompKeyFreeDec
-/-! LENGTH-KEY / PARAM-LENGTH-INFO-TYPE (task W13): the parameters of a structure as a list of *items* — components of
-    the compositional framework (`Comp.Ok`, which must not touch the key dictionaries: `Comp.KeyFree`), LENGTH-KEY parameters
-    and PARAM-LENGTH-INFO-TYPE users — and the refinement of the model's two encoding passes and of its decoder:
+/-! LENGTH-KEY / PARAM-LENGTH-INFO-TYPE (task W13): the parameters of a structure as a list of *items* — components
+    (through the semantic interface `Comp.KOk`: every `Comp.Ok ∧ EndOk` component of the compositional framework that does not
+    touch the key dictionaries, `Comp.KeyFree` / `Comp.keyFree_of_noKeys`; nested key structures, `Proofs/CompKeyNest.lean`),
+    LENGTH-KEY parameters (through the interface `KeyDop`) and PARAM-LENGTH-INFO-TYPE users — and the refinement of the model's
+    two encoding passes and of its decoder:
     * every item is a `Comp` (`KItem.toComp`): a key's pair is the hole of `Proofs/CompKeyBase.lean`, a user's pair the payload;
       so the first pass is the pure encoder `Comps.pair`, a `Good` pair (`KItems.good`);
     * `KItems.encode1`: the model's first loop = that pure encoder, together with what it leaves in `length_keys` and in the
